@@ -34,6 +34,9 @@ MODULES = [
 ]
 
 
+SKIP = {"numba_seed"}   # seeding stays compiled: it must reach the real generator states
+
+
 class DrawError(Exception):
     """the code asked for a primitive the script does not provide next (kind/range mismatch or
     exhausted) — model and code disagree on *how randomness is used*"""
@@ -199,7 +202,7 @@ def build():
     for mn in MODULES:
         m = sys.modules[mn]
         for name, obj in list(vars(m).items()):
-            if isinstance(obj, CPUDispatcher) and obj.py_func.__module__ == mn:
+            if isinstance(obj, CPUDispatcher) and obj.py_func.__module__ == mn and name not in SKIP:
                 pf = obj.py_func
                 f = types.FunctionType(pf.__code__, globs[mn], pf.__name__, pf.__defaults__, pf.__closure__)
                 f.__kwdefaults__ = pf.__kwdefaults__
